@@ -212,16 +212,36 @@ def spanP (p : Char → Bool) : List Char → List Char × List Char
 /-- does a dotted host look like an IPv4 literal (all labels numeric)? those have their own validity rule -/
 def looksNumericHost (h : List Char) : Bool := h.all (fun c => isDigit c || c == '.')
 
-/-- canonical: `(http|https|ftp)://host(:port)?(/path)?` with an alphanumeric
-    reg-name host (letters, digits, `.`, `-`, at least one letter) and a path of
-    unreserved characters.  reject: no `scheme://` at all with an allowed scheme
+def userChar (c : Char) : Bool := isAlnum c || c == '.' || c == '-' || c == '_' || c == '~' || c == ':'
+def queryChar (c : Char) : Bool := pathChar c || c == '=' || c == '&'
+
+/-- what may follow the path: nothing, `?query`, `#fragment`, or both (unreserved characters, `=`, `&`, `/`) -/
+def uriTail (r : List Char) : Verdict :=
+  match r with
+  | [] => .accept
+  | '?' :: q =>
+      let (_, r') := spanP queryChar q
+      (match r' with
+       | [] => .accept
+       | '#' :: f => if f.all queryChar then .accept else .unspec
+       | _ => .unspec)
+  | '#' :: f => if f.all queryChar then .accept else .unspec
+  | _ => .unspec
+
+/-- canonical: `(http|https|ftp)://(userinfo@)?host(:port)?(/path)?(?query)?(#fragment)?` with a userinfo of unreserved
+    characters and `:`, an alphanumeric reg-name host (letters, digits, `.`, `-`, at least one letter) and path / query /
+    fragment of unreserved characters (`=`, `&` in the latter two).  reject: no `scheme://` at all with an allowed scheme
     spelling, or an empty host. -/
 def classUri (s : List Char) : Verdict :=
   let afterScheme : Option (List Char) :=
     (dropPrefix? "http://".toList s).orElse fun _ =>
     (dropPrefix? "https://".toList s).orElse fun _ => dropPrefix? "ftp://".toList s
   match afterScheme with
-  | some r =>
+  | some r0 =>
+    -- an optional userinfo part: only taken when an `@` really follows it
+    let r : List Char := match spanP userChar r0 with
+      | (ui, '@' :: r') => if ui.isEmpty then r0 else r'
+      | _ => r0
     let (host, r1) := spanP hostChar r
     if host.isEmpty then
       (match r1 with
@@ -236,7 +256,7 @@ def classUri (s : List Char) : Verdict :=
       if !portOk then .unspec
       else match r2 with
         | [] => .accept
-        | '/' :: r3 => if r3.all pathChar then .accept else .unspec
+        | '/' :: r3 => let (_, r4) := spanP pathChar r3; uriTail r4
         | _ => .unspec
   | none =>
     if anyLenient s then .unspec
